@@ -66,6 +66,12 @@ type FloodConfig struct {
 	// MaxSeenCacheSize limits the seen cache size
 	MaxSeenCacheSize int
 
+	// MaxHops is the maximum number of hops a route advertisement may travel from
+	// its origin (routing.max_hops). An advertisement whose path is longer is neither
+	// stored nor forwarded, and one that has reached the limit is stored but not
+	// forwarded. Zero disables the limit.
+	MaxHops int
+
 	// LocalDisplayName is the display name to include in route advertisements
 	LocalDisplayName string
 
@@ -260,6 +266,23 @@ func (f *Flooder) HandleRouteAdvertise(
 		}
 	}
 
+	// Enforce the hop limit. The decoded path lists every agent between us and the
+	// origin (sender first, origin last), so its length is our distance from the
+	// origin in hops. When the path is unavailable (legacy encrypted path), fall
+	// back to the seen-by list, which grows by one entry per hop.
+	hops := len(path)
+	if hops == 0 {
+		hops = len(seenBy)
+	}
+	if f.cfg.MaxHops > 0 && hops > f.cfg.MaxHops {
+		f.logger.Debug("route advertisement exceeds hop limit, dropping",
+			"origin", originAgent.ShortString(),
+			"sequence", sequence,
+			"hops", hops,
+			"max_hops", f.cfg.MaxHops)
+		return false
+	}
+
 	// Convert protocol routes to routing entries (CIDR, domain, forward, and agent)
 	cidrEntries := make([]routing.RouteEntry, 0, len(routes))
 	domainEntries := make([]routing.DomainRouteEntry, 0)
@@ -317,6 +340,11 @@ func (f *Flooder) HandleRouteAdvertise(
 	// Process forward routes in routing manager
 	if len(forwardEntries) > 0 {
 		f.routeMgr.ProcessForwardRouteAdvertise(fromPeer, originAgent, sequence, forwardEntries, path, encPath)
+	}
+
+	// An advertisement that has travelled the maximum number of hops stops here.
+	if f.cfg.MaxHops > 0 && hops >= f.cfg.MaxHops {
+		return true
 	}
 
 	// Flood to other peers (forward encrypted path as-is)
